@@ -51,6 +51,18 @@ def deleteRule (c : Cfg F) (lang : String) (name : String) : Cfg F × Bool :=
     else (c, false)
   | none => (c, false)
 
+def RuleFn.isSmallDate : RuleFn F → Bool
+  | .smallDate => true
+  | _ => false
+
+/-- `SmartCalc::set_date_rule(language, patterns)` (the patterns arrive tokenised): the old `small_date` rule is
+    removed and the new one is put in front; every other rule — internal or registered through the API — keeps its
+    place.  An unknown language changes nothing. -/
+def setDateRule (c : Cfg F) (lang : String) (pats : List (List (TokInfo F))) : Cfg F :=
+  match c.lang? lang with
+  | some l => c.setLang { l with rules := ⟨.smallDate, pats⟩ :: l.rules.filter (fun r => !r.fn.isSmallDate) }
+  | none => c
+
 /-- insert a family keeping the families ordered by name -/
 def insertFamily (fams : List (String × List (UnitItem F))) (name : String) : List (String × List (UnitItem F)) :=
   match fams with
